@@ -311,7 +311,32 @@ def check(run):
                               {"kind": "canon-random", "value_repr": f"version {v_new!r} after {v_old!r}", "exc": exc})
             if cs(env["signed"]) != want:
                 run.violation("verification changed the canonical bytes of the value it was given", {"kind": "canon-random", "value_repr": f"version {v_new!r}"})
-    run.extra["verified_bytes_cases"] = nver
+    # ... and for EVERY kind of payload (arrays, scalars, empty / falsy values, objects) the library's signer signs, and its verifier
+    # verifies, exactly the canonical bytes of that payload: a sample of the bounded domain as payloads, signature by an independent signer
+    # over Canon.tla's bytes must be accepted, the library's own signature must be the RFC 8032 one over those bytes, and a signature over the
+    # bytes of ANOTHER value of the sample must be rejected
+    signing, common2 = lib.cct("signing"), lib.cct("common")
+    psample = [c for c in r.cases[:: max(1, len(r.cases) // (300 if quick else 3000))]]
+    # every atom and every empty container of the domain is in the sample (the falsy ones are where `x or default` slips hide)
+    psample += [c for c in r.cases if c["v"]["t"] in ("null", "true", "false", "int", "float") or (c["v"]["t"] == "str" and len(c["v"]["c"]) <= 1)
+                or (c["v"]["t"] in ("arr", "obj") and len(c["v"]["m"]) == 0)]
+    priv = common2.PrivateKey.from_bytes(keys.seeds[1])
+    nsv = 0
+    for i, c in enumerate(psample):
+        v, want = pyvalue(c["v"]), bytes(c["bytes"])
+        other = bytes(psample[(i + 1) % len(psample)]["bytes"])
+        sig_lib = signing.serialize_and_sign(pyvalue(c["v"]), priv)
+        if sig_lib != crypto.fast_sign(keys.seeds[1], want).hex():
+            run.violation("serialize_and_sign does not sign the canonical bytes of the payload", {"kind": "canon", "value": c["v"], "expected_hex": want.hex()})
+        for data, expect in ((want, "accept"), (other, "SignatureError" if other != want else "accept")):
+            env = {"signatures": {keys.pub[1]: {"signature": keys.sign(1, data).hex()}}, "signed": pyvalue(c["v"])}
+            out, exc, _ = lib.call(auth.verify_signable, env, [keys.pub[1]], 1, gpg=False)
+            run.evaluations += 1
+            nsv += 1
+            if out != expect:
+                run.violation(f"verify_signable {'rejects' if expect == 'accept' else 'accepts'} a signature over {'the' if expect == 'accept' else 'other than the'} canonical bytes of a payload of kind {c['v']['t']}",
+                              {"kind": "canon", "value": c["v"], "expected_hex": want.hex(), "outcome": out, "exc": exc})
+    run.extra["verified_bytes_cases"] = nver + nsv
     # the bytes are a function of the value alone - also of nothing that happened EARLIER in the process: a sample of the bounded domain is
     # serialised, then the library is put through its other activities (interactive modify-metadata sessions with their display code, command
     # line sub-commands, builders, signing and verification, failing calls), then the same sample is serialised again
